@@ -2814,6 +2814,15 @@ class LinearOperator(object):
         # Pad the index with empty indices
         index = index + tuple(_noop_index for _ in range(ndimension - len(index)))
 
+        # Negative entries of integer / tensor indices count from the end (as for torch.Tensor indexing)
+        # (out-of-range entries are left alone so that they keep raising downstream)
+        index = tuple(
+            torch.where((idx < 0) & (idx >= -size), idx + size, idx)
+            if torch.is_tensor(idx) and not idx.dtype == torch.bool
+            else (idx + size if isinstance(idx, int) and -size <= idx < 0 else idx)
+            for idx, size in zip(index, self.shape)
+        )
+
         # Make the index a tuple again
         *batch_indices, row_index, col_index = index
 
